@@ -102,8 +102,14 @@ def install():
         t = getattr(self, '_verif_trace', None)
         if t is None or t.overflow:
             return orig(self, tag, attrib) if kind == 'start' else orig(self, tag)
-        ev = event_of(kind, tag, attrib or {})
-        before = obs_of(self) if ev is None else None
+        # (the tracer must never disturb the load: if the parser object no longer has the attributes the observation reads --
+        # a refactoring of its internals -- tracing stops and the trace says so; that is a broken correspondence, not a failing load)
+        try:
+            ev = event_of(kind, tag, attrib or {})
+            before = obs_of(self) if ev is None else None
+        except Exception as e_:      # noqa
+            t.overflow = True; t.end = 'untraceable:' + type(e_).__name__
+            return orig(self, tag, attrib) if kind == 'start' else orig(self, tag)
         try:
             r = orig(self, tag, attrib) if kind == 'start' else orig(self, tag)
         except Exception as e:      # noqa
@@ -113,14 +119,17 @@ def install():
                 t.end = 'err-at-foreign-call:' + err_name(e)
             t.overflow = True      # nothing is recorded after the failing call
             raise
-        if ev is None:
-            if obs_of(self) != before:
-                t.problems.append('%s(%s) changed the parser state %s -> %s' % (kind, tag, before, obs_of(self)))
-        else:
-            if len(t.events) >= MAX_EVENTS:
-                t.overflow = True; t.end = 'overflow'
+        try:
+            if ev is None:
+                if obs_of(self) != before:
+                    t.problems.append('%s(%s) changed the parser state %s -> %s' % (kind, tag, before, obs_of(self)))
             else:
-                t.events.append(ev); t.obs.append(dobs_of(self) if ev.startswith(('(sp ', '(gene ', '(/sp)')) else obs_of(self))
+                if len(t.events) >= MAX_EVENTS:
+                    t.overflow = True; t.end = 'overflow'
+                else:
+                    t.events.append(ev); t.obs.append(dobs_of(self) if ev.startswith(('(sp ', '(gene ', '(/sp)')) else obs_of(self))
+        except Exception as e_:      # noqa
+            t.overflow = True; t.end = 'untraceable:' + type(e_).__name__
         return r
     def start(self, tag, attrib):
         return call(self, 'start', o_start, tag, attrib)
@@ -142,7 +151,10 @@ def install_filter():
         o_init(self, *a, **k)
         t = Trace()
         fo = self.filterObj
-        t.queries = tuple(sorted(map(str, getattr(fo, n_))) for n_ in ('HOGId_filter', 'GeneExtId_filter', 'GeneIntId_filter'))
+        try:
+            t.queries = tuple(sorted(map(str, getattr(fo, n_))) for n_ in ('HOGId_filter', 'GeneExtId_filter', 'GeneIntId_filter'))
+        except Exception as e_:      # noqa
+            t.queries = ((), (), ()); t.overflow = True; t.end = 'untraceable:' + type(e_).__name__
         self._verif_trace = t
         LASTF[0] = t
     def call(self, kind, orig, tag, attrib):
@@ -159,11 +171,14 @@ def install_filter():
                 t.end = 'err-at-foreign-call:' + err_name(e)
             t.overflow = True
             raise
-        if ev is not None:
-            if len(t.events) >= MAX_EVENTS:
-                t.overflow = True; t.end = 'overflow'
-            else:
-                t.events.append(ev); t.obs.append(fobs_of(self))
+        try:
+            if ev is not None:
+                if len(t.events) >= MAX_EVENTS:
+                    t.overflow = True; t.end = 'overflow'
+                else:
+                    t.events.append(ev); t.obs.append(fobs_of(self))
+        except Exception as e_:      # noqa
+            t.overflow = True; t.end = 'untraceable:' + type(e_).__name__
         return r
     F.__init__ = init
     F.start = lambda self, tag, attrib: call(self, 'start', o_start, tag, attrib)
